@@ -2236,3 +2236,207 @@ Example hpack_chunking_example hd :
   frags <> [] /\ r_quirk (decode hd (decoder_new 4096) (concat frags)) = QNone /\
   r_fields (decode_chunks hd (decoder_new 4096) frags) = [(bstr "custom-key", bstr "custom-header")].
 Proof. cbv zeta. split; [discriminate|]. vm_compute. auto. Qed.
+
+(* ===================================================================================== *)
+(* Part F: examples                                                                       *)
+
+(* ---- RFC 7541 Appendix C.3: requests without Huffman coding, one decoder ---- *)
+Definition c3_1 : list N := [130; 134; 132; 65; 15; 119; 119; 119; 46; 101; 120; 97; 109; 112; 108; 101; 46; 99; 111; 109].
+Definition c3_2 : list N := [130; 134; 132; 190; 88; 8; 110; 111; 45; 99; 97; 99; 104; 101].
+Definition c3_3 : list N := [130; 135; 133; 191; 64; 10; 99; 117; 115; 116; 111; 109; 45; 107; 101; 121;
+                             12; 99; 117; 115; 116; 111; 109; 45; 118; 97; 108; 117; 101].
+
+Definition fstr (n v : string) : list N * list N := (bstr n, bstr v).
+
+Example rfc7541_C_3 hd :
+  let r1 := decode hd (decoder_new 4096) c3_1 in
+  let r2 := decode hd (r_dec r1) c3_2 in
+  let r3 := decode hd (r_dec r2) c3_3 in
+  (r_verdict r1, r_fields r1, t_size (d_table (r_dec r1))) =
+    (VOk, [fstr ":method" "GET"; fstr ":scheme" "http"; fstr ":path" "/";
+           fstr ":authority" "www.example.com"], 57) /\
+  (r_verdict r2, r_fields r2, t_size (d_table (r_dec r2))) =
+    (VOk, [fstr ":method" "GET"; fstr ":scheme" "http"; fstr ":path" "/";
+           fstr ":authority" "www.example.com"; fstr "cache-control" "no-cache"], 110) /\
+  (r_verdict r3, r_fields r3, t_size (d_table (r_dec r3))) =
+    (VOk, [fstr ":method" "GET"; fstr ":scheme" "https"; fstr ":path" "/index.html";
+           fstr ":authority" "www.example.com"; fstr "custom-key" "custom-value"], 164) /\
+  ent (r_dec r3) = [fstr "custom-key" "custom-value"; fstr "cache-control" "no-cache";
+                    fstr ":authority" "www.example.com"].
+Proof. vm_compute. auto. Qed.
+
+(* ... the reference decoder says the same *)
+Example rfc7541_C_3_reference hd :
+  match ref_decode_block hd h2_int_limit (rstate_init 4096) c3_1 with
+  | Some (fs1, rs1) =>
+    match ref_decode_block hd h2_int_limit rs1 c3_2 with
+    | Some (fs2, rs2) =>
+      match ref_decode_block hd h2_int_limit rs2 c3_3 with
+      | Some (fs3, rs3) => table_size (r_dyn rs3) = 164 /\ length fs1 = 4%nat /\ length fs2 = 5%nat /\
+                           fs3 = r_fields (decode hd (r_dec (decode hd (r_dec (decode hd (decoder_new 4096) c3_1)) c3_2)) c3_3)
+      | None => False
+      end
+    | None => False
+    end
+  | None => False
+  end.
+Proof. vm_compute. auto. Qed.
+
+(* ---- C.5: responses, SETTINGS_HEADER_TABLE_SIZE = 256, evictions ---- *)
+Definition c5_1 : list N :=
+  [72; 3; 51; 48; 50; 88; 7; 112; 114; 105; 118; 97; 116; 101; 97; 29; 77; 111; 110; 44; 32; 50; 49; 32;
+   79; 99; 116; 32; 50; 48; 49; 51; 32; 50; 48; 58; 49; 51; 58; 50; 49; 32; 71; 77; 84; 110; 23; 104; 116;
+   116; 112; 115; 58; 47; 47; 119; 119; 119; 46; 101; 120; 97; 109; 112; 108; 101; 46; 99; 111; 109].
+Definition c5_2 : list N := [72; 3; 51; 48; 55; 193; 192; 191].
+Definition c5_3 : list N :=
+  [136; 193; 97; 29; 77; 111; 110; 44; 32; 50; 49; 32; 79; 99; 116; 32; 50; 48; 49; 51; 32; 50; 48; 58; 49;
+   51; 58; 50; 50; 32; 71; 77; 84; 192; 90; 4; 103; 122; 105; 112; 119; 56; 102; 111; 111; 61; 65; 83; 68;
+   74; 75; 72; 81; 75; 66; 90; 88; 79; 81; 87; 69; 79; 80; 73; 85; 65; 88; 81; 87; 69; 79; 73; 85; 59; 32;
+   109; 97; 120; 45; 97; 103; 101; 61; 51; 54; 48; 48; 59; 32; 118; 101; 114; 115; 105; 111; 110; 61; 49].
+
+Example rfc7541_C_5 hd :
+  let r1 := decode hd (decoder_new 256) c5_1 in
+  let r2 := decode hd (r_dec r1) c5_2 in
+  let r3 := decode hd (r_dec r2) c5_3 in
+  (r_verdict r1, r_fields r1, t_size (d_table (r_dec r1))) =
+    (VOk, [fstr ":status" "302"; fstr "cache-control" "private";
+           fstr "date" "Mon, 21 Oct 2013 20:13:21 GMT"; fstr "location" "https://www.example.com"], 222) /\
+  (r_verdict r2, r_fields r2, t_size (d_table (r_dec r2))) =
+    (VOk, [fstr ":status" "307"; fstr "cache-control" "private";
+           fstr "date" "Mon, 21 Oct 2013 20:13:21 GMT"; fstr "location" "https://www.example.com"], 222) /\
+  (r_verdict r3, r_fields r3, t_size (d_table (r_dec r3))) =
+    (VOk, [fstr ":status" "200"; fstr "cache-control" "private";
+           fstr "date" "Mon, 21 Oct 2013 20:13:22 GMT"; fstr "location" "https://www.example.com";
+           fstr "content-encoding" "gzip";
+           fstr "set-cookie" "foo=ASDJKHQKBZXOQWEOPIUAXQWEOIU; max-age=3600; version=1"], 215) /\
+  ent (r_dec r3) =
+    [fstr "set-cookie" "foo=ASDJKHQKBZXOQWEOPIUAXQWEOIU; max-age=3600; version=1";
+     fstr "content-encoding" "gzip"; fstr "date" "Mon, 21 Oct 2013 20:13:22 GMT"].
+Proof. vm_compute. auto. Qed.
+
+(* ---- C.4: the requests of C.3 with Huffman coded strings; [hd] given as the three facts the
+   example needs about the Huffman code ---- *)
+Definition c4_hd : list N -> option (list N) :=
+  hd_of_table [([241; 227; 194; 229; 242; 58; 107; 160; 171; 144; 244; 255], Some (bstr "www.example.com"));
+               ([168; 235; 16; 100; 156; 191], Some (bstr "no-cache"));
+               ([37; 168; 73; 233; 91; 169; 125; 127], Some (bstr "custom-key"));
+               ([37; 168; 73; 233; 91; 184; 232; 180; 191], Some (bstr "custom-value"))].
+Definition c4_1 : list N := [130; 134; 132; 65; 140; 241; 227; 194; 229; 242; 58; 107; 160; 171; 144; 244; 255].
+Definition c4_2 : list N := [130; 134; 132; 190; 88; 134; 168; 235; 16; 100; 156; 191].
+Definition c4_3 : list N := [130; 135; 133; 191; 64; 136; 37; 168; 73; 233; 91; 169; 125; 127;
+                             137; 37; 168; 73; 233; 91; 184; 232; 180; 191].
+
+Example rfc7541_C_4 :
+  let r1 := decode c4_hd (decoder_new 4096) c4_1 in
+  let r2 := decode c4_hd (r_dec r1) c4_2 in
+  let r3 := decode c4_hd (r_dec r2) c4_3 in
+  (r_verdict r1, t_size (d_table (r_dec r1))) = (VOk, 57) /\
+  (r_verdict r2, t_size (d_table (r_dec r2))) = (VOk, 110) /\
+  (r_verdict r3, r_fields r3, t_size (d_table (r_dec r3))) =
+    (VOk, [fstr ":method" "GET"; fstr ":scheme" "https"; fstr ":path" "/index.html";
+           fstr ":authority" "www.example.com"; fstr "custom-key" "custom-value"], 164).
+Proof. vm_compute. auto. Qed.
+
+(* ---- error classes ---- *)
+Example err_index_zero hd : r_verdict (decode hd (decoder_new 4096) [128]) = VErr InvalidTableIndex.
+Proof. reflexivity. Qed.
+Example err_index_beyond hd : r_verdict (decode hd (decoder_new 4096) [190]) = VErr InvalidTableIndex.
+Proof. reflexivity. Qed.
+Example err_update_oversize hd :
+  r_verdict (decode hd (decoder_new 4096) [63; 226; 31]) = VErr InvalidMaxDynamicSize.   (* 4097 *)
+Proof. vm_compute. reflexivity. Qed.
+Example err_update_misplaced hd :
+  r_verdict (decode hd (decoder_new 4096) [130; 32]) = VErr InvalidMaxDynamicSize.
+Proof. vm_compute. reflexivity. Qed.
+Example err_int_overflow hd :
+  r_verdict (decode hd (decoder_new 4096) [255; 128; 128; 128; 128; 0]) = VErr IntegerOverflow.
+Proof. vm_compute. reflexivity. Qed.
+Example err_huffman (hd : list N -> option (list N)) : hd [255] = None ->
+  r_verdict (decode hd (decoder_new 4096) [0; 129; 255; 0]) = VErr InvalidHuffmanCode.
+Proof.
+  intros H. unfold decode. cbn [length take_queued decoder_new d_queued].
+  rewrite decode_loop_S. unfold decode_step.
+  change (repr_load 0) with (@inl repr dec_err LiteralWithoutIndexing). cbv iota.
+  unfold decode_literal. change (decode_int 4 [0; 129; 255; 0]) with (@ROk N 0 [129; 255; 0]).
+  cbv iota. change (0 =? 0) with true. cbv iota. unfold try_decode_string.
+  change (decode_int 7 [129; 255; 0]) with (@ROk N 1 [255; 0]). cbv iota.
+  change (split_n 1 [255; 0]) with (Some ([255], [0])). cbv iota.
+  change (N.land 129 128 =? 128) with true. cbv iota. rewrite H. reflexivity.
+Qed.
+Example err_truncated hd :
+  r_verdict (decode hd (decoder_new 4096) [64; 10; 99; 117]) = VErr (NeedMore StringUnderflow) /\
+  r_left (decode hd (decoder_new 4096) [130; 64; 10; 99; 117]) = [64; 10; 99; 117].
+Proof. vm_compute. auto. Qed.
+Example oversize_entry_empties_table hd :
+  (* table of 64 octets holding one entry; an entry of 32+1+40 octets does not fit: not an error,
+     the table is emptied (RFC 7541 4.4) *)
+  let r1 := decode hd (decoder_new 64) [64; 1; 97; 1; 98] in
+  let r2 := decode hd (r_dec r1) ([64; 1; 99; 40] ++ repeat 100 40) in
+  (r_verdict r1, t_size (d_table (r_dec r1))) = (VOk, 34) /\
+  (r_verdict r2, length (r_fields r2), t_size (d_table (r_dec r2)), ent (r_dec r2)) = (VOk, 1%nat, 0, []).
+Proof. vm_compute. auto. Qed.
+
+(* ---- the three deviations of h2 from the property, reproduced on the real decoder by the
+   harness (corpus/hpackdec/findings.jsonl), here as facts about the model ---- *)
+
+(* 1. `can_resize` is a local of Decoder::decode: it is true again when decoding resumes with the
+   next CONTINUATION fragment.  Whole block: error.  Same block in two fragments: accepted, and
+   the table maximum is set to 0 in the middle of the block. *)
+Example chunking_differs_misplaced_update hd :
+  let d := decoder_new 4096 in
+  r_verdict (decode hd d (concat [[130]; [32]])) = VErr InvalidMaxDynamicSize /\
+  r_quirk (decode hd d (concat [[130]; [32]])) = QMisplacedUpdate /\
+  r_verdict (decode_chunks hd d [[130]; [32]]) = VOk /\
+  tmax (r_dec (decode_chunks hd d [[130]; [32]])) = 0 /\
+  ref_decode_block hd h2_int_limit (abs d) [130; 32] = None.
+Proof. vm_compute. auto. Qed.
+
+(* 2. `Header::new` answers an empty name with NeedMore(UnexpectedEndOfStream) *after* the raw
+   strings have been split off the buffer.  Whole block: hard error.  When a fragment boundary
+   follows the representation, the error is taken for "need more input", and the header is
+   silently dropped; RFC 7541 assigns the block the list [("", "a"); (":method", "GET")]. *)
+Example chunking_differs_empty_name hd :
+  let d := decoder_new 4096 in
+  r_verdict (decode hd d (concat [[0; 0; 1; 97]; [130]])) = VErr (NeedMore UnexpectedEndOfStream) /\
+  r_quirk (decode hd d (concat [[0; 0; 1; 97]; [130]])) = QEmptyName /\
+  (r_verdict (decode_chunks hd d [[0; 0; 1; 97]; [130]]),
+   r_fields (decode_chunks hd d [[0; 0; 1; 97]; [130]])) = (VOk, [fstr ":method" "GET"]) /\
+  option_map fst (ref_decode_block hd h2_int_limit (abs d) [0; 0; 1; 97; 130]) =
+    Some [([], [97]); fstr ":method" "GET"].
+Proof. vm_compute. auto. Qed.
+
+(* ... with a raw empty name and a Huffman coded value only the name is split off: decoding
+   resumes at the value's length octet, which is then read as a representation of its own
+   (here 129 = indexed field 1, :authority) *)
+Example chunking_resyncs_inside_representation (hd : list N -> option (list N)) :
+  hd [31] = Some [97] ->
+  let d := decoder_new 4096 in
+  r_left (decode hd d [0; 0; 129; 31]) = [129; 31].
+Proof.
+  intros H. unfold decode. cbn [length take_queued decoder_new d_queued].
+  rewrite decode_loop_S. unfold decode_step.
+  change (repr_load 0) with (@inl repr dec_err LiteralWithoutIndexing). cbv iota.
+  unfold decode_literal. change (decode_int 4 [0; 0; 129; 31]) with (@ROk N 0 [0; 129; 31]).
+  cbv iota. change (0 =? 0) with true. cbv iota.
+  change (try_decode_string hd [0; 129; 31]) with (@ROk (bool * list N) (false, []) [129; 31]).
+  cbv iota. unfold try_decode_string at 1.
+  change (decode_int 7 [129; 31]) with (@ROk N 1 [31]). cbv iota.
+  change (split_n 1 [31]) with (Some ([31], @nil N)). cbv iota.
+  change (N.land 129 128 =? 128) with true. cbv iota. rewrite H. reflexivity.
+Qed.
+
+(* 3. A lowered SETTINGS_HEADER_TABLE_SIZE is only a ceiling for later size updates: when the
+   peer does not send the size update RFC 7541 4.2 requires, the block is accepted and the table
+   keeps more than the advertised limit.  (So [hpack_table_bounded] cannot be strengthened to the
+   limit in force, and [hpack_decode_sound_rfc] needs its hypothesis.) *)
+Example limit_reduction_not_enforced hd :
+  let d1 := r_dec (decode hd (decoder_new 4096)
+                     [64; 10; 99; 117; 115; 116; 111; 109; 45; 107; 101; 121;
+                      13; 99; 117; 115; 116; 111; 109; 45; 104; 101; 97; 100; 101; 114]) in
+  let d2 := queue_size_update d1 0 in
+  let r := decode hd d2 [130] in
+  r_verdict r = VOk /\ d_last_max (r_dec r) = 0 /\ t_size (d_table (r_dec r)) = 55 /\
+  tmax (r_dec r) = 4096 /\
+  ref_decode_block hd h2_int_limit (abs (take_queued d2)) [130] <> None /\
+  rfc_ref_decode_block hd h2_int_limit (abs (take_queued d2)) [130] = None.
+Proof. vm_compute. repeat split; auto; discriminate. Qed.
